@@ -232,6 +232,7 @@ func (cpu *CPU) processInterrupt() bool {
 			cpu.executeOne()
 			cpu.Memory = savedMemory
 			cpu.IFF1 = false
+			cpu.IFF2 = false
 		}
 		return true
 	case 1:
@@ -240,6 +241,7 @@ func (cpu *CPU) processInterrupt() bool {
 		cpu.writeU16(cpu.SP, cpu.PC)
 		cpu.PC = 0x0038
 		cpu.IFF1 = false
+		cpu.IFF2 = false
 		return true
 	case 2:
 		// Interrupt with IM 2
@@ -249,6 +251,7 @@ func (cpu *CPU) processInterrupt() bool {
 			// The LSB of interruption vector is ignored in IM 2
 			cpu.PC = cpu.readU16(toU16(cpu.Interrupt.Data[0]&0xfe, cpu.IR.Hi))
 			cpu.IFF1 = false
+			cpu.IFF2 = false
 		}
 		return true
 	default:
